@@ -77,4 +77,8 @@ def collection_to_gff3(
     if add_sequences:
         print(GFF3Headers.FASTA_HEADER.value, file=gff3_handle)
         for collection in collections:
-            print(collection.sequence.to_fasta(), file=gff3_handle)
+            # the FASTA record must carry the name the rows and the sequence-region header use: the sequence of a
+            # collection on a sequence chunk has an identifier of its own (<chromosome>:<start>-<end>)
+            fasta_lines = collection.sequence.to_fasta().split("\n")
+            fasta_lines[0] = f">{collection.sequence_name}"
+            print("\n".join(fasta_lines), file=gff3_handle)
